@@ -17,7 +17,7 @@ LEVEL = 'model_checking'
 TECHNIQUE = ('bounded exhaustive enumeration of component chains x per-component spellings x joiners x configurations on the real '
              'Tract preprocessor/parser; oracle: canonical text, equality with the canonical text\'s result, fixed point')
 LEVEL_TEXT = ('All chains of length <= 2 with the full product of 55 documented spellings, all chains of length 3 with <= 1 (quick) '
-              'non-default spelling / the full product (thorough), x 4 joiners x 4 configurations; every case is compared with the '
+              'non-default spelling / the full product (thorough), x 7 joiners (incl. upper-case OF THE) x 4 configurations; every case is compared with the '
               'canonical rendering of the same chain under the same configuration and re-fed to the preprocessor. The bare-quarter '
               'clause is enumerated over all quarters x halves x 5 contexts x clean_qq. Spelling bugs are local to one component and '
               'its neighbours (look-behind / look-ahead guards, regex order), so length 3 covers every neighbourhood.')
@@ -45,7 +45,7 @@ SP = {
 }
 CANON = {'N': 'N½', 'S': 'S½', 'E': 'E½', 'W': 'W½', 'NE': 'NE¼', 'NW': 'NW¼', 'SE': 'SE¼', 'SW': 'SW¼'}
 COMPS = list(SP)
-JOIN = [' ', '', ' of ', ' of the ']
+JOIN = [' ', '', ' of ', ' of the ', ' OF ', ' Of The ', ' OF THE ']
 CFGS = [None, 'clean_qq', 'qq_depth.1', 'clean_qq,qq_depth_min.3,break_halves']
 _p = None
 _base = {}
